@@ -114,8 +114,15 @@ VClone(r) ==
   IF ~(Same(r.orig0, w0) /\ Same(r.clone0, w0)) THEN Bad("clone|Bounds|not-equal-at-clone-time", 0)
   ELSE IF ~(Same(r.orig1, a1) /\ Same(r.clone1, b1)) THEN Bad("clone|Bounds|mutation-visible-through-the-other", 1)
   ELSE IF ~(Same(r.orig2, a2) /\ Same(r.clone2, b2)) THEN Bad("clone|Bounds|mutation-visible-through-the-other", 2)
-  ELSE IF ~r.setok THEN Bad("clone|Bounds|Set-visible-through-the-other", 3)
-  ELSE IF ~r.coordok THEN Bad("clone|Coord|shares-storage", 4)
+  ELSE IF ~Same(r.orig3, a2) THEN Bad("clone|Bounds|Set-visible-through-the-other", 3)       \* Set / SetCoords on a fresh clone
+  \* geom.Coord: equal bit for bit at clone time; a write to the clone (position 1 := 77) and one to the original
+  \* (position 2 := 88) show only where they were made; appending to the clone leaves the original's length alone
+  ELSE IF r.cc0 # r.co0 THEN Bad("clone|Coord|not-equal-at-clone-time", 4)
+  ELSE IF ~(/\ Len(r.co1) = Len(r.co0) /\ Len(r.cc1) = Len(r.co0)
+            /\ \A k \in DOMAIN r.co0 : /\ (k # 2 => r.co1[k] = r.co0[k]) /\ (k # 1 => r.cc1[k] = r.co0[k])
+            /\ r.co1[2] = "4056000000000000" /\ r.cc1[1] = "4053400000000000"
+            /\ r.colen = Len(r.co0) /\ r.cclen = Len(r.co0) + 1 /\ r.nilclonelen = 0)
+       THEN Bad("clone|Coord|shares-storage", 4)
   ELSE OK
 Verdict(r) ==
   IF r.ev # "ok" THEN Bad("bounds|" \o r.ev, 0)
